@@ -197,6 +197,11 @@ def g3(cx):
                 locs.append(x)
             if isinstance(x, ast.Call) and call_name(x) == "get_offset" and x.args and norm(x.args[0]) == idx:
                 locs.append(x)
+        if not locs and name != "_get_offset":
+            dele = [c for c in own_nodes(fn) if isinstance(c, ast.Call) and norm(c.func) == "self._get_offset" and c.args and norm(c.args[0]) == idx]
+            cx.recog(bool(dele), fn, f"Array.{name}: index -> offset locator (inline or through self._get_offset)")
+            cx.ok(dele[0], construct=f"Array.{name}: locates through self._get_offset({idx})", detail="the bound-checked locator of _get_offset is reused")
+            continue
         cx.need(locs, f"Array.{name}: no locator found")
         for L in locs:
             n += 1
@@ -207,7 +212,7 @@ def g3(cx):
                     ok = True
             cx.check(ok, L, construct=f"Array.{name}: {short(L)}", detail="index validated against the shape before it is turned into an offset",
                      bad_detail="locator not dominated by bound_check(index, self._shape): a negative index wraps around silently (numpy indexing) instead of raising IndexError")
-    cx.need(n >= 6, f"expected 6 locators in Array accessors, found {n}")
+    cx.need(n >= 2, f"expected the locators of Array._get_offset at least, found {n}")
     # bound_check itself: both bounds, raising
     bc = m.func("array::bound_check")
     fl = Flow(bc)
